@@ -48,10 +48,13 @@ def main(argv):
                 return rc2
     except progmod.AnchorMissing as e:
         chk.anchor_missing("anchor", str(e))
-    except Exception:
+    except Exception as e:
+        # a rule that cannot digest the shape of the (changed) code fails closed, like a missing anchor: the
+        # construct it was written for is no longer there in the form that was reviewed
         traceback.print_exc()
-        print(f"ERROR: checker crashed on {pid}")
-        return 2
+        tb = traceback.extract_tb(e.__traceback__)
+        where = next((f"{os.path.basename(fr.filename)}:{fr.name}" for fr in reversed(tb) if "/props/" in fr.filename), "?")
+        chk.anchor_missing("rule-cannot-analyse", f"{where}: {type(e).__name__}: {str(e)[:120]}")
     return report.finish(
         chk,
         program,
